@@ -156,7 +156,9 @@ def run(ctx: Ctx):
     ctx.check(len(tagged) == 2, "R17.b", "src/gotranx/ode.lark::expressions::tagged-alternatives", "expressions(...) and component(...) headers", f"expressions rule has {len(tagged)} component-tagged alternatives", "src/gotranx/ode.lark")
     for a in tagged:
         txt = G.render(a)
-        body = txt[txt.rfind('")"') + 3:].strip()
+        body = G.expand_inlined(txt[txt.rfind('")"') + 3:].strip())
+        while body.startswith("(") and body.endswith(")") and body.count("(") == body.count(")") and not body.endswith(")+"):
+            body = body[1:-1].strip()
         okb = all(x in body for x in ("assignment", cname, "NEWLINE")) and body.endswith(")+")
         ctx.check(okb, "R17.b", f"src/gotranx/ode.lark::expressions::{txt.split()[0]}::block-items", f"block items: {body}", f"inside a `{txt.split()[0].strip(chr(34))}(...)` block only `{body}` is accepted: a comment line or a blank line between two assignments ends the block and the remaining assignments silently move to the unnamed component (or the model no longer loads)", "src/gotranx/ode.lark")
     from sa import av as _avt
@@ -179,7 +181,13 @@ def run(ctx: Ctx):
         guarded = all(it[0] == "when" and it[1] == ("not", isc) for it in parsed)
         ok = passed and bool(parsed) and guarded
         to = _ut.nf(ctx, "transformer.py", "TreeToODE.ode")
-        ok2 = any(isinstance(n, ast.If) and re.fullmatch(r"isinstance\(\w+, atoms\.Comment\)", norm(n.test)) and any(isinstance(s_, ast.Continue) for s_ in n.body) for n in ast.walk(to.node))
+        # the Comment items are separated from the atoms - in ode() itself or in a module-level helper it uses
+        scope_nodes = [to.node]
+        used = {x.id for x in ast.walk(to.node) if isinstance(x, ast.Name)} | {x.attr for x in ast.walk(to.node) if isinstance(x, ast.Attribute)}
+        for hf in sm.funcs_in("transformer.py"):
+            if hf.name in used and hf.name.startswith("_") or (hf.name in used and "." not in hf.qualname and hf.name not in ("tree2parameter", "lark_list_to_parameters")):
+                scope_nodes.append(hf.node)
+        ok2 = any(isinstance(n, ast.If) and re.fullmatch(r"(not )?isinstance\(\w+, atoms\.Comment\)", norm(n.test)) for sn in scope_nodes for n in ast.walk(sn))
         ctx.check(ok and ok2, "R17.b", key, "comments inside a block are passed on, not treated as atoms", f"the transformer does not pass Comment items of an expressions block on unchanged ({_avt.show(tv)[:120]}): they would be treated as assignments", tex.where())
     asg = G.shape("assignment")
     ctx.check(asg.replace(" ", "") == '?assignment:VARIABLE"="expression[' + cname + '][NEWLINE]', "R17.b", "src/gotranx/ode.lark::assignment", asg, f"assignment rule is `{asg}`", "src/gotranx/ode.lark")
